@@ -81,13 +81,15 @@ class SliceAccessor(Accessor):
         if isinstance(subscript, slice):
             # Acquiris Quodcumquae Rapis
             start, stop, step = subscript.start, subscript.stop, subscript.step
+            # As in segyio, an absent step means ascending line numbers, whichever way the axis runs in the file
+            increasing = step is None or step > 0
             if step is None:
-                step = int(self.keys_object[1] - self.keys_object[0])
+                step = abs(int(self.keys_object[1] - self.keys_object[0]))
             if start is None:
-                start = int(self.keys_object[0])
+                start = int(min(self.keys_object)) if increasing else int(max(self.keys_object))
             if stop is None:
-                # One past the last line number, in the direction of travel (axes may be descending)
-                stop = int(self.keys_object[-1]) + (1 if step > 0 else -1)
+                # One past the extreme line number, in the direction of travel
+                stop = int(max(self.keys_object)) + 1 if increasing else int(min(self.keys_object)) - 1
             return [self.values_function(index) for index in range(start, stop, step)]
         else:
             return self.values_function(subscript)
